@@ -180,7 +180,9 @@ def run_case(case):
     base = case["rects"]
     orders = case["orders"] if "orders" in case else _orders(base)
     for k, lst in enumerate(orders):
-        if case["rotate"]:      # two embeddings per order, all nine over the orders of the case
+        if "embs" in case:
+            embs = case["embs"]
+        elif case["rotate"]:    # two embeddings per order, all nine over the orders of the case
             j = k + case.get("salt", 0)
             embs = [ALL[j % len(ALL)], ALL[(j + len(ALL) // 2) % len(ALL)]]
         else:
@@ -192,7 +194,7 @@ def run_case(case):
                 add(_direct(emb, lst, True), en)
         if case["netlist"] and k == 0:
             j = case.get("salt", 0)
-            for en in (ALL[j % len(ALL)], ALL[(j + 3) % len(ALL)]):
+            for en in (case["embs"] if "embs" in case else (ALL[j % len(ALL)], ALL[(j + 3) % len(ALL)])):
                 for ev in _netlist(EMBEDDINGS[en], lst):
                     add(ev, en)
     return list(found.values())
@@ -272,6 +274,52 @@ def random_cases(rng: random.Random, n: int) -> list[dict]:
             orders.append(tuple(tuple(r) for r in p))
         cases.append({"kind": "multiset", "rects": rects, "orders": orders, "rotate": False, "history_every": 1,
                       "orders_rule": "given", "netlist": True, "salt": len(cases), "origin": "random:" + defect})
+    return cases
+
+
+def comb_cases(rng: random.Random, n: int) -> list[dict]:
+    """Bars and combs under the decimal embedding (step 0.1): a trunk 128.0 or 256.0 long on an axis whose lines are
+    exactly representable, branches along that long side, and the other axis at 16.0 plus 0.1 / 0.2 / 0.8 steps
+    (inexact: abutting rectangles may overlap by one unit in the last place).  The one-ulp overlap along a side
+    thousands of times longer than the smallest side has an area above the distance tolerance and far below the area
+    tolerance.  Half of the lists get a defect (gap or overlap of 0.1, overhang of 1.0)."""
+    cases = []
+    for i in range(n):
+        L = rng.choice([1280, 2560]) + 10 * rng.randint(0, 3)
+        y0 = 160 + rng.choice([0, 1, 3, 9])
+        h = rng.choice([1, 2, 8])
+        T = [0, y0, L, y0 + h]
+        rects = [T]
+        for side in ("N", "S"):
+            x = 0
+            for _b in range(rng.randint(0, 2)):
+                x1 = x + 10 * rng.randint(0, 3)
+                x2 = min(L, x1 + rng.choice([L // 2 // 10 * 10, L - x1, 1280]))
+                if x2 <= x1:
+                    break
+                d = rng.choice([1, 2, 8])
+                rects.append([x1, y0 + h, x2, y0 + h + d] if side == "N" else [x1, y0 - d, x2, y0])
+                x = x2
+        defect = rng.choice(["none", "none", "gap", "overlap", "overhang"])
+        if defect != "none" and len(rects) > 1:
+            k = rng.randrange(1, len(rects))
+            b = list(rects[k])
+            up = b[1] >= T[3]
+            if defect == "overhang":
+                b[0] -= 10
+            else:
+                s = (1 if defect == "gap" else -1) * (1 if up else -1)
+                b[1] += s; b[3] += s
+            rects[k] = b
+        if i % 2:       # the same list turned by 90 degrees (long axis = y)
+            rects = [[r[1], r[0], r[3], r[2]] for r in rects]
+        orders = []
+        for _o in range(2):
+            p = rects[:]
+            rng.shuffle(p)
+            orders.append(tuple(tuple(r) for r in p))
+        cases.append({"kind": "multiset", "rects": rects, "orders": orders, "rotate": False, "history_every": 1,
+                      "orders_rule": "given", "netlist": True, "salt": i, "origin": "comb:" + defect, "embs": ["dec"]})
     return cases
 
 
@@ -380,6 +428,7 @@ def run(ctx: Ctx) -> int:
     cases = tlc_cases(uniq)
     rng = random.Random(ctx.seed * 1000003 + 6)
     cases += random_cases(rng, 400 if tier == "quick" else 4000)
+    cases += comb_cases(rng, 200 if tier == "quick" else 2000)
     decide(ctx, cases)
     st = ctx.extra["observed"]
     if min(st["reported_stog_3plus"], st["with_stale_roles"], st["with_repetition"]) == 0:
